@@ -884,6 +884,7 @@ def concrete_rule_clock_round_trip(repo, instants):
 
 
 QUICK_COMBOS = [("LPS", 2.2), ("GPM", 2.2), ("GPM", 2.0), ("AFD", 2.2), ("CMH", 2.0)]
+QUICK_COMBOS_B = [("MGD", 2.2), ("LPM", 2.0)]          # fixture variant B (Hazen-Williams, demand-driven, trace, statistic ...) in the quick tier
 ALL_UNITS = ("CFS", "GPM", "MGD", "IMGD", "AFD", "LPS", "LPM", "MLD", "CMH", "CMD")
 
 
@@ -891,8 +892,10 @@ def run_thorough(repo, chk):
     # R-C12-17 on every flow-unit system and both INP versions (the quick tier ran five of the twenty combinations)
     from .c12_roundtrip import round_trip_rules
     rest = [(u, v) for u in ALL_UNITS for v in (2.2, 2.0) if (u, v) not in QUICK_COMBOS]
+    rest_b = [(u, v) for u in ALL_UNITS for v in (2.2, 2.0) if (u, v) not in QUICK_COMBOS_B]
     try:
         round_trip_rules(repo, chk, rest)
+        round_trip_rules(repo, chk, rest_b, variant="B")
     except AnchorError as e:
         chk.error("R-C12-17: %s: %s" % (type(e).__name__, e))
     chk.extra["exhaustive_over_unit_systems_and_versions"] = True
@@ -903,7 +906,8 @@ def run(repo, chk):
     from .c12_roundtrip import round_trip_rules
     try:
         round_trip_rules(repo, chk, QUICK_COMBOS)
-        chk.floor("R-C12-17", 9 * len(QUICK_COMBOS))
+        round_trip_rules(repo, chk, QUICK_COMBOS_B, variant="B")
+        chk.floor("R-C12-17", 9 * (len(QUICK_COMBOS) + len(QUICK_COMBOS_B)))
     except AnchorError as e:
         chk.error("R-C12-17: %s: %s" % (type(e).__name__, e))
     classes = conversion_classes(repo)
@@ -1492,6 +1496,14 @@ def run(repo, chk):
 
 
 WITNESSES = [
+    # fixture variant B: options and elements the base fixture does not have
+    dict(name="round-trip-statistic-not-written", file=IO, old="        f.write(entry.format('STATISTIC', wn.options.time.statistic).encode(sys_default_enc))\n", new="", rule="R-C12-17"),
+    dict(name="round-trip-unbalanced-count-dropped", file=IO, old="            f.write('{:20s} {:s} {:d}\\n'.format('UNBALANCED', wn.options.hydraulic.unbalanced, wn.options.hydraulic.unbalanced_value).encode(sys_default_enc))\n",
+         new="            f.write(entry_string.format('UNBALANCED', wn.options.hydraulic.unbalanced).encode(sys_default_enc))\n", rule="R-C12-17"),
+    dict(name="round-trip-trace-node-dropped", file=IO, old="            f.write('{:20s} {} {}\\n'.format('QUALITY', wn.options.quality.parameter, wn.options.quality.trace_node).encode(sys_default_enc))\n",
+         new="            f.write(entry_string.format('QUALITY', wn.options.quality.parameter).encode(sys_default_enc))\n", rule="R-C12-17"),
+    dict(name="round-trip-tank-minimum-volume-written-as-a-length", file=IO, old="                 'minvol': from_si(self.flow_units, tank.min_vol, HydParam.Volume),\n",
+         new="                 'minvol': from_si(self.flow_units, tank.min_vol, HydParam.Length),\n", rule="R-C12-17"),
     dict(name="round-trip-valve-setting-written-unconverted", file=IO, old="                valve_set = from_si(self.flow_units, valve.initial_setting, HydParam.Flow)\n", new="                valve_set = valve.initial_setting\n", rule="R-C12-17"),
     dict(name="round-trip-rule-priority-dropped-by-the-writer", file=IO, old="        if self.priority >= 0:\n", new="        if self.priority >= 99:\n", rule="R-C12-17"),
     dict(name="mass-units-only-from-previous-read", file=IO, old="        if isinstance(quality_units, str) and quality_units.split('/')[0] in ('mg', 'ug'):\n            self.mass_units = MassUnits[quality_units.split('/')[0]]\n        elif self.mass_units is None:",
